@@ -3,7 +3,8 @@
 //! 4 len, 5 size_hint, 6 as_slice, 7 write i v, 8 clone_obs, 9 clone_swap,
 //! 10 fold(clone), 11 rfold(clone), 12 count(clone), 13 last(clone), 14 debug,
 //! 15 fold / 16 rfold of the iterator ITSELF (it is consumed: these end a history; plain u32 run only, where
-//! the visited values are what a clone's fold visits).
+//! the visited values are what a clone's fold visits), 17 clone_from: an iterator over a copy of the WHOLE array
+//! (so: longer than, or as long as, the source) takes `clone_from(&it)` and is then observed like a clone.
 //! Observables, per op: 0 | 1 x | 2 n | 3 lo hi | 4 k x1..xk | 5 (unit) | 6 (panic).
 use generic_array::typenum::*;
 use generic_array::{ArrayLength, GenericArray, GenericArrayIter};
@@ -61,6 +62,7 @@ fn list<E: El>(out: &mut Vec<i128>, l: &[E]) {
 
 fn run<E: El, N: ArrayLength>(vals: &[i128], ops: &[i128]) -> Vec<i128> {
     let arr: GenericArray<E, N> = GenericArray::from_iter(vals.iter().map(|v| E::mk(*v as u32)));
+    let whole: GenericArray<E, N> = arr.clone();
     let mut it: GenericArrayIter<E, N> = arr.into_iter();
     let mut out = vec![];
     let mut i = 0;
@@ -108,6 +110,18 @@ fn run<E: El, N: ArrayLength>(vals: &[i128], ops: &[i128]) -> Vec<i128> {
                 let c = it.clone();
                 it = c;
                 out.push(5);
+            }
+            17 => {
+                let mut d: GenericArrayIter<E, N> = whole.clone().into_iter();
+                d.clone_from(&it);
+                list(&mut out, d.as_slice());
+                // the destination is a working queue of its own afterwards
+                let k = d.len();
+                let mut seen = 0;
+                while d.next().is_some() {
+                    seen += 1;
+                }
+                assert_eq!(seen, k, "an iterator filled by clone_from yields len() elements");
             }
             10 => {
                 let mut seen = vec![];
@@ -302,7 +316,7 @@ fn main() {
                 for via_clone in [false, true] {
                     let len = n - f - b;
                     let mut ops_list: Vec<Vec<i128>> = vec![];
-                    for code in [0, 1, 4, 5, 6, 8, 9, 10, 11, 12, 13, 14] {
+                    for code in [0, 1, 4, 5, 6, 8, 9, 10, 11, 12, 13, 14, 17] {
                         ops_list.push(vec![code]);
                     }
                     for arg in 0..=(len + 2) {
@@ -397,6 +411,7 @@ fn main() {
                 90..=92 => 11,
                 93..=94 => 12,
                 95..=96 => 13,
+                97 => 17,
                 _ => 14,
             };
             case.push(code);
